@@ -138,7 +138,7 @@ def main():
                 exp = []
                 for j in range(N):
                     for i in range(M): exp += [i * N + j, -(100 + i * N + j)]
-                if [Fraction(v) for v in vals] != exp: mism.append({'what': 'ctranspose', 'cfg': cfg.name, 'case': c, 'detail': 'got %s expected %s' % ([str(v) for v in vals[:8]], exp[:8])})
+                if [Fraction(v) for v in vals] != exp: mism.append({'what': 'ctranspose', 'cfg': cfg.name, 'case': c, 'detail': 'first differing element %s; got %s expected %s' % (next((i for i, (a, b) in enumerate(zip([Fraction(v) for v in vals], exp)) if a != b), min(len(vals), len(exp))), [str(v) for v in vals[:16]], [str(e) for e in exp[:16]])})
                 continue
             vals = []
             for v in p[2:]:
@@ -171,12 +171,12 @@ def main():
                     else:
                         mism.append({'what': 'legacy-permutation-' + tag, 'cfg': cfg.name, 'case': c, 'detail': 'extents %s, elements are neither the permutation by p nor by its inverse: %s' % (ld, vals[:16])})
                     continue
-                if vals != exp: mism.append({'what': 'permute-' + tag, 'cfg': cfg.name, 'case': c, 'detail': 'got %s expected %s' % (vals[:16], exp[:16])})
+                if vals != exp: mism.append({'what': 'permute-' + tag, 'cfg': cfg.name, 'case': c, 'detail': 'first differing element %s; got %s expected %s' % (next((i for i, (a, b) in enumerate(zip(vals, exp)) if a != b), min(len(vals), len(exp))), vals[:16], exp[:16])})
             else:
                 V = cfg.lanes(TYPES[c['ty']][1])
                 if tag == 'RT': exp = list(range(len(vals)))
                 else: exp = model[('T%d' % V, cid)][:len(vals)]
-                if vals != exp: mism.append({'what': 'transpose-' + tag, 'cfg': cfg.name, 'case': c, 'detail': 'got %s expected %s' % (vals[:16], exp[:16])})
+                if vals != exp: mism.append({'what': 'transpose-' + tag, 'cfg': cfg.name, 'case': c, 'detail': 'first differing element %s; got %s expected %s' % (next((i for i, (a, b) in enumerate(zip(vals, exp)) if a != b), min(len(vals), len(exp))), vals[:16], exp[:16])})
     groups = {}
     for m in mism:
         c = m['case']; key = (m['what'], m['cfg'], c['ty'])
